@@ -25,7 +25,7 @@ var (
 	regionCache = map[*ssa.If]*region{}
 )
 
-var pureIntrinsics = map[string]bool{"vAnd": true, "vOr": true, "vImp": true, "vNot": true, "vIte64": true}
+var pureIntrinsics = map[string]bool{"vAnd": true, "vOr": true, "vImp": true, "vNot": true, "vIte64": true, "vIte8": true}
 
 func pureInstr(in ssa.Instruction) bool {
 	switch in := in.(type) {
